@@ -32,6 +32,8 @@ pub mod c03;
 pub mod c04;
 #[cfg(kani)]
 pub mod c07;
+#[cfg(kani)]
+pub mod c06;
 
 /// Counterexample replay (see lib/replay.py): the generated concrete-playback tests.
 #[cfg(all(kani, verif_playback))]
